@@ -882,3 +882,145 @@ func decodedHereOrByValueHelper(f *ssa.Function, base ssa.Value) bool {
 	dbg("decodedHere: %s n=%d", g.Name(), n)
 	return n > 0
 }
+
+// ruleAbortFirst (C10: "aborted exchanges ... never end in PASS"): in every handler state that decodes a CONTINUE
+// from its request and can hand the exchange on (register a continuation, delegate to another handler), the abort
+// bit of that CONTINUE is tested - as a bit, not by comparing the whole octet - and the abort side never reaches
+// the hand-over. Decodes of the same request body agree, so the error edge of one CONTINUE decode is not a way
+// round the test when the hand-over itself sits behind the success of another.
+func ruleAbortFirst(p *Program, r *Result) {
+	abortC, ok := p.rootConst("AuthenContinueFlagAbort")
+	if !ok {
+		r.undecided("R-ABORT", "anchor:AuthenContinueFlagAbort", "-", "UNRESOLVED constant")
+		return
+	}
+	n := 0
+	for _, orig := range p.FuncsIn(func(path string) bool { return path == modPath+"/cmds/server/handlers" }) {
+		if p.isTestFile(orig.Pos()) || orig.Signature.Params().Len() != 2 || !typeIs(orig.Signature.Params().At(1).Type(), modPath, "Request") {
+			continue
+		}
+		if p.useViews && p.folded(orig) {
+			continue
+		}
+		fn := p.localInlined(orig)
+		conts := map[*ssa.Alloc]*ssa.Call{}
+		for dc, a := range decodeCalls(fn, "AuthenContinue") {
+			if isRequestBody(dc.Common().Args[0]) {
+				conts[a] = dc
+			}
+		}
+		if len(conts) == 0 {
+			continue
+		}
+		// hand-overs
+		var sinks []ssa.CallInstruction
+		for _, c := range allCalls(fn) {
+			cc := c.Common()
+			if cc.IsInvoke() && (cc.Method.Name() == "Next" || cc.Method.Name() == "Handle") {
+				sinks = append(sinks, c)
+			} else if f := cc.StaticCallee(); f != nil && f.Name() == "Handle" && f.Signature.Params().Len() == 2 && typeIs(f.Signature.Params().At(1).Type(), modPath, "Request") {
+				sinks = append(sinks, c)
+			}
+		}
+		if len(sinks) == 0 {
+			continue
+		}
+		// abort tests
+		isAbortFlags := func(v ssa.Value) bool {
+			f, base, ok := loadedField(v)
+			if !ok || f.Name() != "Flags" {
+				return false
+			}
+			a, ok := base.(*ssa.Alloc)
+			return ok && conts[a] != nil
+		}
+		tests := map[*ssa.BasicBlock]*ssa.BasicBlock{} // test block -> abort successor
+		for _, b := range fn.Blocks {
+			iff, ok := b.Instrs[len(b.Instrs)-1].(*ssa.If)
+			if !ok {
+				continue
+			}
+			cond, neg := iff.Cond, false
+			if u, ok := cond.(*ssa.UnOp); ok && u.Op == token.NOT {
+				cond, neg = u.X, true
+			}
+			isTest, abortOnTrue := false, true
+			switch x := cond.(type) {
+			case *ssa.Call:
+				if f := x.Common().StaticCallee(); f != nil && f.Name() == "Has" && hasIsMaskTest(f) && len(x.Common().Args) == 2 {
+					if c, okc := constInt(x.Common().Args[1]); okc && c == abortC {
+						a0 := x.Common().Args[0]
+						if fa, ok := a0.(*ssa.FieldAddr); ok {
+							if al, ok := fa.X.(*ssa.Alloc); ok && conts[al] != nil && fieldName(fa) == "Flags" {
+								isTest = true
+							}
+						} else if isAbortFlags(a0) {
+							isTest = true
+						}
+					}
+				}
+			case *ssa.BinOp:
+				// flags&abort != 0, flags&abort == abort (abort is a single bit), flags&abort == 0 (negated)
+				and, ok := x.X.(*ssa.BinOp)
+				if ok && and.Op == token.AND {
+					if m, okm := constInt(and.Y); okm && m == abortC && isAbortFlags(stripAllConv(and.X)) {
+						if c, okc := constInt(x.Y); okc {
+							switch {
+							case x.Op == token.NEQ && c == 0, x.Op == token.EQL && c == abortC:
+								isTest = true
+							case x.Op == token.EQL && c == 0, x.Op == token.NEQ && c == abortC:
+								isTest, abortOnTrue = true, false
+							}
+						}
+					}
+				}
+			}
+			if !isTest {
+				continue
+			}
+			if neg {
+				abortOnTrue = !abortOnTrue
+			}
+			if abortOnTrue {
+				tests[b] = b.Succs[0]
+			} else {
+				tests[b] = b.Succs[1]
+			}
+		}
+		for i, s := range sinks {
+			n++
+			key := fmt.Sprintf("%s:abort-first#%d", fnKey(orig), i+1)
+			blocked := map[*ssa.BasicBlock]bool{}
+			good := true
+			why := ""
+			for tb, ab := range tests {
+				blocked[tb] = true
+				if ab == s.Block() || blockReach(ab, nil)[s.Block()] {
+					good, why = false, "the abort side of the test at "+p.Pos(tb.Instrs[len(tb.Instrs)-1].Pos())+" goes on to the hand-over"
+				}
+			}
+			// the error edge of a CONTINUE decode: the request is not a CONTINUE, there is no abort flag to honour
+			// (and a later decode of the same bytes cannot succeed where this one failed)
+			for _, dc := range conts {
+				errB, _ := errEdges(dc)
+				for _, e := range errB {
+					blocked[e] = true
+				}
+			}
+			if good && (len(tests) == 0 || blockReach(fn.Blocks[0], blocked)[s.Block()]) && !blocked[s.Block()] {
+				good = false
+				if len(tests) == 0 {
+					why = "no test of the abort bit (flags & AuthenContinueFlagAbort) of the CONTINUE decoded from this request"
+				} else {
+					why = "a path reaches the hand-over without passing the abort test"
+				}
+			}
+			r.cond(good, "R-ABORT", key, p.Pos(s.Pos()),
+				"before the exchange is handed on ("+shortCall(s)+"), the abort bit of the CONTINUE decoded from this request is tested as a bit and the abort side ends the exchange",
+				"a CONTINUE carrying the abort flag can be handed on ("+shortCall(s)+"): "+why+" - an aborted exchange could still end in PASS")
+		}
+	}
+	if n == 0 {
+		r.undecided("R-ABORT", "states", "-", "no handler state decoding a CONTINUE and handing the exchange on was found")
+	}
+}
